@@ -10,10 +10,12 @@ import random
 TX_EDITS = ["forge_sig", "no_sig", "flip_sig", "tamper_output", "type_fee", "type_atr", "type_issuance",
             "type_spv", "type_vip", "type_stake", "dup_input", "inflate_input", "phantom_input", "overspend", "wrap_outputs", "zero_lead_foreign"]
 BLOCK_EDITS = ["drop_last_tx", "dup_first_tx", "swap_txs", "tamper_tx_data", "zero_root_drop_tx",
-               "resign_other_key", "bump_timestamp_nosign", "bump_treasury_resign", "bump_burnfee_resign", "atr_redirect"]
+               "resign_other_key", "bump_timestamp_nosign", "bump_treasury_resign", "bump_burnfee_resign", "atr_redirect",
+               "append_uncounted_tx"]
 
 
-SIDE_EDITS = ["drop_last_tx", "swap_txs", "tamper_tx_data", "resign_other_key", "flip_block_sig", "dup_first_tx", "atr_redirect"]
+SIDE_EDITS = ["drop_last_tx", "swap_txs", "tamper_tx_data", "resign_other_key", "flip_block_sig", "dup_first_tx", "atr_redirect",
+              "append_uncounted_tx"]
 
 
 class Gen:
@@ -134,7 +136,7 @@ class Gen:
         self.prune_pool()
         return True
 
-    def reorg(self, depth=None, plain=False, force_forged=False):
+    def reorg(self, depth=None, plain=False, force_forged=False, force_edit=None, force_restart=False):
         """a competing branch that forks a few blocks below the tip and ends one block higher"""
         if len(self.chain) < 3:
             return False
@@ -160,6 +162,8 @@ class Gen:
         first_h = h + 1
         if (not plain) and first_h % (2 * self.g) == 0 and first_h > self.g + 1 and (force_forged or self.rnd.random() < 0.6):
             poison, forged = False, True
+        if force_edit:
+            poison, forged = False, True
         for i in range(d + 1):
             self.nlabel += 1
             lab = "s%d" % self.nlabel
@@ -175,9 +179,14 @@ class Gen:
                     e = self.rnd.choice(SIDE_EDITS)
                     if first_h % (2 * self.g) == 0 and first_h > self.g + 1:
                         e = "atr_redirect"   # the block that lands in slot 0 of the block ring redirects a rebroadcast
+                    if force_edit:
+                        e = force_edit
                     self.steps.append(dict(op="block", label=lab, parent=parent, gt=True, txs=txs, bedit=e, tag="bedit-side:" + e, gap=2))
                     par = lab
                     for j in range(d):
+                        if j == d - 1 and old_h + 1 <= 2 * self.g and (force_restart or self.rnd.random() < 0.4):
+                            # the node is restarted while the edited block is only a stored side block
+                            self.steps.append(dict(op="restart", tag="clean"))
                         self.nlabel += 1
                         l2 = "s%d" % self.nlabel
                         t = dict(id="t%d" % (self.ntx + 1), signer=txs[0]["signer"], ins=["%s.0" % txs[0]["id"]],
@@ -640,6 +649,8 @@ def scenarios(seed, n, long_p=0.3):
     out += first_block_scenarios(rnd)
     for i in range(max(6, n // 40)):
         out.append(ring_seam_fork_scenario(rnd))
+    for i in range(max(6, n // 40)):
+        out.append(forged_side_restart_scenario(rnd))
     for i in range(max(4, n // 12)):
         out.append(wallet_scenario(rnd))
     for i in range(max(3, n // 40)):
@@ -735,4 +746,20 @@ def ring_seam_fork_scenario(rnd):
         gen.good_block()
     s = gen.scenario(0)
     s["tag"] = "ring-seam-fork"
+    return s
+
+
+def forged_side_restart_scenario(rnd):
+    """a side block whose signature (or creator) was edited is stored, the node restarts (the block is read back from
+    its own block directory), and the branch then grows past the chain: it must not win"""
+    g = rnd.choice([4, 6])
+    gen = Gen(rnd, g, 2)
+    for _ in range(rnd.randint(2, 4)):
+        gen.good_block()
+    gen.reorg(depth=rnd.randint(1, 2), force_edit=rnd.choice(["flip_block_sig", "resign_other_key", "tamper_tx_data", "drop_last_tx"]),
+              force_restart=True)
+    for _ in range(2):
+        gen.good_block()
+    s = gen.scenario(0)
+    s["tag"] = "forged-side-restart"
     return s
